@@ -2678,21 +2678,24 @@ INVARIANT RerunIsNoop
     report.add_tlc('Handover MaxK=%d M=%d (all start states, prefixes, companions)' % (maxk, M), res.stats())
     by_cfg = {}
     for r in res.records:
-        key = json_key([r['K'], r['S'], r['start'], sorted(r['companions'])], 0)
+        key = json_key([r['K'], r['S'], r['start'], sorted(r['companions']), bool(r.get('failFirst')),
+                        bool(r.get('premarked'))], 0)
         by_cfg.setdefault(key, {})[r['run']] = r
     items = sorted(by_cfg.items())
     rng = random.Random(seed() * 919 + 10)
     rng.shuffle(items)
-    limit = 60 if tier == 'quick' else len(items)
+    limit = 80 if tier == 'quick' else len(items)
     # keep every (start kind, S) combination represented
-    items.sort(key=lambda kv: (kv[1][1]['start'][0], kv[1][1]['S']))
+    items.sort(key=lambda kv: (not kv[1][1].get('failFirst'), not kv[1][1].get('premarked'),
+                               kv[1][1]['start'][0], kv[1][1]['S']))
     chosen = items[::max(1, len(items) // limit)][:limit] if len(items) > limit else items
 
     def one(ikv):
         i, (key, runs) = ikv
         r1 = runs[1]
         return H.replay({'K': r1['K'], 'S': r1['S'], 'start': r1['start'],
-                         'companions': r1['companions']}, idx=i, M=M)
+                         'companions': r1['companions'], 'failFirst': bool(r1.get('failFirst')),
+                         'premarked': bool(r1.get('premarked'))}, idx=i, M=M)
     with ThreadPoolExecutor(16) as ex:
         observations = list(ex.map(one, enumerate(chosen)))
     nontrivial = set()
@@ -2703,12 +2706,20 @@ INVARIANT RerunIsNoop
         report.coverage['evaluations'] += 1
         r1 = runs[1]
         where = {'K': r1['K'], 'mark_applied_prefix': r1['S'], 'start': r1['start'],
-                 'companions': sorted(r1['companions']), 'driver': obs.get('driver')}
+                 'companions': sorted(r1['companions']), 'driver': obs.get('driver'),
+                 'failed_first_attempt': bool(r1.get('failFirst')), 'premarked': bool(r1.get('premarked'))}
         if obs['errors']:
             report.notes.append('start state could not be built: %r %r' % (where, obs['errors'][:1]))
             continue
         if r1['start'][0] == 'evo' or r1['companions']:
             nontrivial.add(key)
+        fa = obs.get('failed_attempt')
+        if fa is not None:
+            if not fa['fault_fired']:
+                report.notes.append('C10: planned fault did not fire for %r' % (where,))
+            elif fa['outcome'] == 'ok' or fa['changed']:
+                report.fail({'class': 'failed-handover-attempt-left-changes',
+                             'what': sorted(fa['changed'])}, dict(where, failed_attempt=fa))
         for runno in (1, 2):
             exp = runs.get(runno)
             o = obs['run%d' % runno]
